@@ -15,6 +15,10 @@ Every request has three independent notifyFinish observers (two from the hand-ov
 just before finish()); the first one's callback returns a non-None value and its errback swallows
 the failure, which the other observers must never see.
 
+A fourth observer is registered re-entrantly, from inside the notification handler of one of the
+first three (which one rotates with the request index and the segmentation): it must get the same
+single result as the others.
+
 Oracle: a reference model of a head-of-line-blocking server (reference_run) predicts the exact
 event sequence (hand-over, finish, notifyFinish results) and the exact bytes on the wire; in
 addition the schedule-independent invariants are checked directly on the recorded events.
@@ -44,7 +48,8 @@ BOUNDS = {"quick": {"n": 5}, "thorough": {"n": 7}}
 B = {}
 BOUNDS_TEXT = ("three pipelined requests (GET, POST with a 3-byte body, GET; none or any one of them a HEAD instead, "
                "whose resource still writes a body and sets no Content-Length) cut into deliveries in three ways "
-               "(all three when there is no HEAD, one per HEAD position); "
+               "(all three when there is no HEAD, one per HEAD position); four notifyFinish observers per request, "
+               "the fourth registered from inside the handler of observer (request index + cut) mod 3; "
                "every subset of requests finished synchronously inside process(); every schedule of length <= n "
                "(5 quick, 7 thorough) over {deliver next chunk, finish request 0/1/2, transport pause/resume "
                "toggle, connection lost}")
@@ -129,6 +134,7 @@ class ScriptedRequest(L.Request):
         i = len(ch.v_handed)
         self.v_idx = i
         self.v_deferreds = []
+        self.v_late = (i + ch.v_late) % 3      # which observer's handler registers the late observer
         ch.v_handed.append(self)
         ev = ch.v_events
         ev.append(("recv", i, t(self.method), t(self.uri), t(self.content.read())))
@@ -143,9 +149,21 @@ class ScriptedRequest(L.Request):
     def v_observe(self, obs, retval):
         ev = self.channel.v_events
         i = self.v_idx
+
+        def ok(r):
+            ev.append(("nf-ok", i, r is None, obs))
+            if obs == self.v_late:
+                self.v_observe(3, None)       # re-entrant: a new observer from inside a notification
+            return retval
+
+        def err(f):
+            ev.append(("nf-err", i, f.check(ConnectionDone) is not None, obs))
+            if obs == self.v_late:
+                self.v_observe(3, None)
+            return None
+
         d = self.notifyFinish()
-        d.addCallbacks(lambda r: ev.append(("nf-ok", i, r is None, obs)) and None or retval,
-                       lambda f: ev.append(("nf-err", i, f.check(ConnectionDone) is not None, obs)) and None)
+        d.addCallbacks(ok, err)
         self.v_deferreds.append(d)
 
     def v_finish(self):
@@ -203,7 +221,7 @@ def reference_run(now, completes, ops, methods=_METHODS):
     return ev, nf, wire, True
 
 
-NOBS = 3
+NOBS = 4
 
 
 def _invariants(ev):
@@ -256,24 +274,26 @@ def _project(ev):
     return main, nf
 
 
-def _expected_nf(nf):
+def _expected_nf(nf, late):
     """the model's result per request -> per observer: observers 0 and 1 exist from the hand-over on,
-    observer 2 only registers immediately before finish()"""
+    observer 2 registers immediately before finish(); observer 3 is registered re-entrantly from inside
+    the notification of observer (i + late) % 3 and must get the same result as everybody else"""
     out = []
-    for r in nf:
+    for i, r in enumerate(nf):
         if r == "ok":
             out.append(["ok"] * NOBS)
         elif r == "err":
-            out.append(["err", "err", None])
+            out.append(["err", "err", None, "err" if (i + late) % 3 < 2 else None])
         else:
             out.append([None] * NOBS)
     return out
 
 
-def pipeline(now: int, cut: int, head: int, sched: List[int]) -> bool:
+def pipeline(now: int, cut: int, head: int, late: int, sched: List[int]) -> bool:
     """
     pre: 0 <= now < 8 and 0 <= cut < 3 and 0 <= head <= 3
     pre: head == 3 or cut == head
+    pre: late == cut
     pre: len(sched) <= B['n'] and all(0 <= op <= 5 for op in sched)
     post: _
     """
@@ -289,6 +309,7 @@ def pipeline(now: int, cut: int, head: int, sched: List[int]) -> bool:
     ch.v_handed = []
     ch.v_events = ev = []
     ch.v_now = nowl
+    ch.v_late = late = split_cases(2, late)
     tr = FakeTransport()
     ch.makeConnection(tr)
     nchunk = 0
@@ -339,7 +360,7 @@ def pipeline(now: int, cut: int, head: int, sched: List[int]) -> bool:
                 if ds[x] is ds[y]:
                     return False                          # each notifyFinish() call returns its own Deferred
     got_ev, got_nf = _project(ev)
-    return got_ev == exp_ev and got_nf == _expected_nf(exp_nf) and wire_matches(tr.value(), exp_wire) and not tr.closed
+    return got_ev == exp_ev and got_nf == _expected_nf(exp_nf, late) and wire_matches(tr.value(), exp_wire) and not tr.closed
 
 
 HARNESSES = [
@@ -349,11 +370,13 @@ HARNESSES = [
 ]
 
 VECTORS = {
-    "pipeline": [(7, 0, 3, [0, 0, 0]), (0, 0, 3, [0, 1, 0, 2, 0]), (0, 1, 3, [0, 1, 2, 0, 3]), (2, 1, 3, [0, 1, 0, 3]),
-                 (0, 0, 3, [0, 0, 0, 5]), (0, 2, 3, [0, 0, 5]), (5, 1, 3, [4, 0]), (0, 1, 3, [0, 4, 1, 4, 2]),
-                 (1, 0, 3, [0, 0, 2, 5]), (0, 1, 3, [0, 5]), (3, 2, 3, [0, 4, 0, 3]), (0, 0, 3, [0, 2]), (0, 0, 3, [5, 0]),
-                 (7, 0, 0, [0, 0, 0]), (0, 1, 1, [0, 1, 2, 0, 3]), (4, 2, 2, [0, 0, 1, 2]), (0, 0, 0, [0, 1, 0, 2]),
-                 (2, 1, 1, [0, 1, 0, 5]), (7, 1, 0, [0, 0]), (0, 1, 2, [0, 1, 2, 0, 3])],
+    "pipeline": [(7, 0, 3, 0, [0, 0, 0]), (0, 0, 3, 0, [0, 1, 0, 2, 0]), (0, 1, 3, 1, [0, 1, 2, 0, 3]), (2, 1, 3, 1, [0, 1, 0, 3]),
+                 (0, 0, 3, 0, [0, 0, 0, 5]), (0, 2, 3, 2, [0, 0, 5]), (5, 1, 3, 1, [4, 0]), (0, 1, 3, 1, [0, 4, 1, 4, 2]),
+                 (1, 0, 3, 0, [0, 0, 2, 5]), (0, 1, 3, 1, [0, 5]), (3, 2, 3, 2, [0, 4, 0, 3]), (0, 0, 3, 0, [0, 2]), (0, 0, 3, 0, [5, 0]),
+                 (7, 0, 0, 0, [0, 0, 0]), (0, 1, 1, 1, [0, 1, 2, 0, 3]), (4, 2, 2, 2, [0, 0, 1, 2]), (0, 0, 0, 0, [0, 1, 0, 2]),
+                 (2, 1, 1, 1, [0, 1, 0, 5]), (7, 1, 0, 1, [0, 0]), (0, 1, 2, 1, [0, 1, 2, 0, 3]),
+                 (0, 1, 3, 0, [0, 1, 2, 0, 3]), (0, 1, 3, 2, [0, 1, 2, 0, 3]), (0, 0, 3, 1, [0, 0, 0, 5]), (0, 0, 3, 2, [0, 5]),
+                 (7, 0, 3, 1, [0, 0, 0]), (7, 0, 3, 2, [0, 0, 0]), (0, 1, 3, 1, [0, 1, 5])],
 }
 
 
